@@ -188,9 +188,12 @@ def prepare_affine(
     pads: list[tuple[int, ...]] = []
     new_center: list[float] = []
     need_pad = False
+    # nearest-neighbor interpolation (order 0) also needs one voxel of margin, because
+    # coordinates beyond the last voxel are considered out-of-bound by scipy.
+    margin = max(order, 1)
     for c, s, s0 in zip(center, output_shape, img.shape):
-        x0 = int(c - s / 2 - order)
-        x1 = int(x0 + s + 2 * order + 1)
+        x0 = int(c - s / 2 - margin)
+        x1 = int(x0 + s + 2 * margin + 1)
         _sl, _pad, _need_pad = make_slice_and_pad(x0, x1, s0)
         slices.append(_sl)
         pads.append(_pad)
@@ -220,9 +223,10 @@ def prepare_affine_cornersafe(
     pads: list[tuple[int, ...]] = []
     new_center: list[float] = []
     need_pad = False
+    margin = max(order, 1)  # see prepare_affine
     for c, s0 in zip(center, img.shape):
-        x0 = int(c - half_len - order)
-        x1 = int(x0 + max_len + 2 * order + 1)
+        x0 = int(c - half_len - margin)
+        x1 = int(x0 + max_len + 2 * margin + 1)
         _sl, _pad, _need_pad = make_slice_and_pad(x0, x1, s0)
         slices.append(_sl)
         pads.append(_pad)
